@@ -4,7 +4,7 @@ from ..runner import Harness
 from ..pse import truth
 from . import common as cm
 
-FM = ["md5", "xxh64", "c4"]
+FM = ["md5", "xxh64", "sha1"]
 
 
 def scenario(tier):
@@ -23,10 +23,13 @@ def scenario(tier):
         ever = set()
         gens = sym.choose("generations", list(range(1, G + 1)))
         for g in range(gens):
-            fmts = [f for f in FM[:2 if tier == "quick" else 3] if sym.flag("g%d_%s" % (g, f))]
+            fmts = [f for f in FM if sym.flag("g%d_%s" % (g, f))]
             if not fmts:
                 sym.assume(False)
             mode = "folder" if g == 0 else sym.choose("mode%d" % g, ["folder", "sf-file", "sf-folder"])
+            if g == 1 and sym.flag("file_added_before_gen1"):
+                b.mkfile("R/z/new report.txt", 9)
+                files["R/z/new report.txt"] = orig["R/z/new report.txt"] = cur["R/z/new report.txt"] = 9
             if g > 0:
                 ch = sym.choose("content%d" % g, ["keep", "alter", "restore"])
                 if ch == "alter":
@@ -75,6 +78,11 @@ def scenario(tier):
                 b.require(truth(e.digest == want[f]), "earliest-non-failed-digest", "%s %s" % (rec.path, f))
                 b.require(e.action != "failed", "no-failed-entry", "%s %s" % (rec.path, f))
         # verify -pl: unchanged tree (w.r.t. the summarised originals) passes, altered tree fails
+        unrecorded = [f for f in cur if rel(f) not in ever]
+        if unrecorded:
+            r = b.run("verify", root="R", pl=pls[0])
+            b.require(r.exit in (21, 11), "verify-pl-reports-unrecorded-file", "%s never recorded: %s" % (unrecorded, r))
+            return
         consistent = all(cur[f] == orig[f] for f in cur)
         r = b.run("verify", root="R", pl=pls[0])
         if consistent:
@@ -93,6 +101,6 @@ def harnesses(tier):
                     what="flat history of 1-%d generations (first in folder mode, later ones folder / -sf file / -sf folder), every non-empty "
                          "format subset per generation, one file kept / altered / restored between generations; flatten; packing list read "
                          "independently; verify -pl on unchanged and altered tree" % (2 if tier == "quick" else 3),
-                    bounds={"generations": "1-%d" % (2 if tier == "quick" else 3), "formats": "md5,xxh64 (quick) + c4 (thorough)",
+                    bounds={"generations": "1-%d" % (2 if tier == "quick" else 3), "formats": "md5, xxh64, sha1",
                             "tree": "R/{a.txt,d/{b.txt,e/{c.txt}},z/}"},
                     outside=["histories with nested child histories or renames (excluded by the statement)", "flatten -n / ignore options"])]
